@@ -680,3 +680,116 @@ def scalarise_new_structs(facts, reference_structs):
             blk["stmts"][i:i + 1] = new_lets
             done.setdefault(hb["path"], {})[let["pat"].get("name")] = [f["name"] for f in fields]
     return done
+
+
+
+# ------------------------------------------------------------------ `match (e1, flag) { (P, true) => .., (_, false) => .. }`
+def _pat_ids(p):
+    return [n["id"] for n in walk(p) if n.get("k") == "PBind"]
+
+
+def _rename_ids(node, m):
+    for n in walk(node):
+        if n.get("k") == "Path" and n["res"].get("r") == "local" and n["res"].get("id") in m:
+            n["res"]["id"] = m[n["res"]["id"]]
+        elif n.get("k") == "PBind" and n.get("id") in m:
+            n["id"] = m[n["id"]]
+
+
+def untuple_bool_matches(facts):
+    """A match on a tuple in which some component is only ever tested against `true` / `false` / `_` is the nested `if` it abbreviates:
+    it is rewritten (HIR view) into the decision tree, component by component, so that the facts known in each arm are ordinary
+    `if` / `if let` conditions. Returns {function: number of matches rewritten}."""
+    from .rules.hirtext import pat_str
+    done = {}
+
+    def is_bool(p):
+        return p.get("k") == "PLit" and p.get("lit") == "bool"
+
+    def is_wild(p):
+        return p.get("k") == "PWild"
+
+    def build(arms, items, i, ty, sp):
+        # arms: list of (component patterns, body)
+        if not arms:
+            return None
+        if i == len(items) or all(is_wild(p) for p in arms[0][0][i:]):
+            return copy.deepcopy(arms[0][1])     # (an arm with wildcards can end up in several branches)
+        col = [a[0][i] for a in arms]
+        if all(is_wild(p) for p in col):
+            return build(arms, items, i + 1, ty, sp)
+        first = next(p for p in col if not is_wild(p))
+        if is_bool(first):
+            if not all(is_bool(p) or is_wild(p) for p in col):
+                return None
+            t = [a for a in arms if is_wild(a[0][i]) or a[0][i].get("v") is True]
+            f = [a for a in arms if is_wild(a[0][i]) or a[0][i].get("v") is False]
+            bt, bf = build(t, items, i + 1, ty, sp), build(f, items, i + 1, ty, sp)
+            if bt is None or bf is None:
+                return None
+            return {"k": "If", "sp": sp, "cond": items[i], "then": bt, "else": bf, "ty": ty, "from_tuple_match": True}
+        text = pat_str(first)
+        if not all(is_wild(p) or pat_str(p) == text for p in col):
+            return None
+        ids = _pat_ids(first)
+        m_arms, n_arms = [], []
+        for a in arms:
+            p = a[0][i]
+            if is_wild(p):
+                m_arms.append(a)
+                n_arms.append(a)
+            else:
+                if p is not first:
+                    mine = _pat_ids(p)
+                    if len(mine) != len(ids):
+                        return None
+                    _rename_ids(a[1], dict(zip(mine, ids)))
+                m_arms.append(a)
+        bm, bn = build(m_arms, items, i + 1, ty, sp), build(n_arms, items, i + 1, ty, sp)
+        if bm is None or bn is None:
+            return None
+        cond = {"k": "LetExpr", "sp": first.get("sp"), "pat": first, "init": items[i], "ty": "bool"}
+        return {"k": "If", "sp": sp, "cond": cond, "then": bm, "else": bn, "ty": ty, "from_tuple_match": True}
+
+    for hb in facts.hir:
+        if hb["crate"] not in (VISITOR_CRATE, PLUGIN_CRATE) or hb.get("mac"):
+            continue
+        for n in list(walk(hb["body"])):
+            if n.get("k") != "Match" or "ForLoop" in (n.get("src") or "") or "Desugar" in (n.get("src") or ""):
+                continue
+            sc = n["scrut"]
+            while sc.get("k") in ("Paren", "DropTemps"):
+                sc = sc["e"]
+            if sc.get("k") != "Tup":
+                continue
+            items = sc["items"]
+            arms = []
+            ok = True
+            for a in n["arms"]:
+                if a.get("guard") is not None:
+                    ok = False
+                    break
+                p = a["pat"]
+                if is_wild(p):
+                    comps = [{"k": "PWild"} for _ in items]
+                elif p.get("k") == "PTuple" and len(p["pats"]) == len(items):
+                    comps = p["pats"]
+                else:
+                    ok = False
+                    break
+                arms.append((comps, a["body"]))
+            if not ok or not arms:
+                continue
+            if not any(all(is_bool(a[0][i]) or is_wild(a[0][i]) for a in arms) and any(is_bool(a[0][i]) for a in arms) for i in range(len(items))):
+                continue
+            # bool columns are tested last (they are plain conditions; the patterns bind what the arms use)
+            order = [i for i in range(len(items)) if not all(is_bool(a[0][i]) or is_wild(a[0][i]) for a in arms)] + \
+                    [i for i in range(len(items)) if all(is_bool(a[0][i]) or is_wild(a[0][i]) for a in arms)]
+            arms2 = [([a[0][i] for i in order], copy.deepcopy(a[1])) for a in arms]
+            tree = build(arms2, [items[i] for i in order], 0, n.get("ty"), n.get("sp"))
+            if tree is None:
+                continue
+            n.clear()
+            n.update(tree)
+            done[hb["path"]] = done.get(hb["path"], 0) + 1
+    return done
